@@ -172,6 +172,8 @@ GrowOK(op, a, wd, g) ==
     LET base == IF op.op \in Ctors \/ op.op = "reload" THEN 0 ELSE nw IN
     /\ g.nw >= base
     /\ g.nw * W >= Len(a) * wd
+    \* new_unaligned promises a padding word after the contents (so that get_unaligned works)
+    /\ (op.op = "new_unaligned" => g.nw >= CeilDiv(Len(a) * wd, W) + 1)
     /\ g.garb \subseteq Rng(MaxOf(base * W, Len(a) * wd), g.nw * W)
 
 \* store after rewriting the elements from+1 .. Len(a) of a (width unchanged)
